@@ -17,6 +17,7 @@ assert not jh.is_unit_testing()
 TS0 = 1609459200000
 seen = {}
 DATA_ROUTES = []
+CANDLES = {}
 
 class S(Strategy):
     def should_long(self): return self.index == 2
@@ -78,10 +79,18 @@ def session(cfg):
         data_routes = []
     keep_dr = [dict(r_) for r_ in data_routes]
     arr = candles()
+    if cfg.get('scale'):
+        arr[:, 1:5] *= cfg['scale']
     keep = arr.copy()
     seen.clear()
+    cd = {f'{ex}-BTC-USDT': {'exchange': ex, 'symbol': 'BTC-USDT', 'candles': arr}}
+    if cfg.get('shared_candles'):
+        # the caller keeps ONE candles dict and refreshes its content between calls
+        CANDLES.clear()
+        CANDLES.update(cd)
+        cd = CANDLES
     try:
-        r = research.backtest(c, routes, data_routes, {f'{ex}-BTC-USDT': {'exchange': ex, 'symbol': 'BTC-USDT', 'candles': arr}})
+        r = research.backtest(c, routes, data_routes, cd, generate_logs=bool(cfg.get('logs')))
     except Exception as e:
         if cfg.get('abort'):
             return {'aborted': type(e).__name__}
@@ -89,6 +98,8 @@ def session(cfg):
     m = r['metrics']
     out = {k: (round(float(m[k]), 8) if isinstance(m.get(k), (int, float)) else m.get(k)) for k in
            ('total', 'net_profit', 'fee', 'finishing_balance', 'starting_balance') if k in m}
+    out['logs'] = r.get('logs') if not cfg.get('logs') else 'requested'
+    out['result_keys'] = sorted(r.keys())
     out['seen'] = {k: (v if not isinstance(v, float) else round(v, 8)) for k, v in seen.items()}
     out['args_unmodified'] = bool(np.array_equal(arr, keep)) and [dict(r_) for r_ in data_routes] == keep_dr
     return out
@@ -105,8 +116,13 @@ def run(seq):
     env = dict(os.environ)
     env.pop('PYTEST_CURRENT_TEST', None)
     env['PYTHONPATH'] = os.environ.get('PYVC_REPO', '/repo')
-    p = subprocess.run([sys.executable, '-W', 'ignore', '-c', SCRIPT, json.dumps(seq)], capture_output=True, text=True, env=env,
-                       timeout=600)
+    import tempfile, shutil
+    scratch = tempfile.mkdtemp(prefix='c11_')        # sessions may write storage/ files relative to the working directory
+    try:
+        p = subprocess.run([sys.executable, '-W', 'ignore', '-c', SCRIPT, json.dumps(seq)], capture_output=True, text=True, env=env,
+                           timeout=600, cwd=scratch)
+    finally:
+        shutil.rmtree(scratch, ignore_errors=True)
     for line in p.stdout.splitlines():
         if line.startswith('RESULT '):
             return json.loads(line[7:])
@@ -124,6 +140,10 @@ SCENARIOS = {
                                       {'exchange': 'Sandbox', 'timeframe': '5m', 'data_tf': '15m'}),
     'same-data-routes-twice': ([{'exchange': 'Sandbox', 'timeframe': '5m', 'data_tf': '15m'}], {'exchange': 'Sandbox', 'timeframe': '5m', 'data_tf': '15m'}),
     'aborted-with-a-pending-market-order': ([{'exchange': 'Sandbox', 'abort_at': 2, 'abort': True}], {'exchange': 'Sandbox'}),
+    # the same candles dict object, refreshed with other prices between the calls
+    'same-candles-object-new-content': ([{'exchange': 'Sandbox', 'shared_candles': True}], {'exchange': 'Sandbox', 'shared_candles': True, 'scale': 1.5}),
+    # an earlier session that asked for its log file
+    'logs-then-plain': ([{'exchange': 'Sandbox', 'logs': True}], {'exchange': 'Sandbox'}),
     'spot-then-futures': ([{'exchange': 'Sandbox', 'type': 'spot'}], {'exchange': 'Sandbox', 'type': 'futures', 'leverage': 3}),
 }
 
@@ -196,7 +216,7 @@ def replay(pl):
             return {'confirmed': False, 'error': err}
         return {'confirmed': bool(d), 'detail': d or 'equal calls return equal, unshared results'}
     # the recorded finding (exchange-driver table frozen at the first session) is replayed by replay_finding only
-    order = ['memo', 'vars', 'spot-then-futures', 'warmup', 'aborted-then-other-timeframes', 'same-data-routes-twice', 'aborted-with-a-pending-market-order']
+    order = ['memo', 'vars', 'spot-then-futures', 'warmup', 'aborted-then-other-timeframes', 'same-data-routes-twice', 'aborted-with-a-pending-market-order', 'same-candles-object-new-content', 'logs-then-plain']
     if ob.startswith('drivers'):
         order = ['drivers']
     elif ob.startswith('store-reset'):
